@@ -427,8 +427,6 @@ impl<'t, A> Fold<'t, A> for TreeExhaustiveness {
     }
 
     fn finalize(&mut self, branch: &BranchKind<'t, A>, term: Self::Term) -> Self::Term {
-        use Variance::{Invariant, Variant};
-
         match branch {
             // The bounds of a repetition only multiply the depth of tokens that are unbounded in
             // breadth and text. Consider `<{a}/:1,>*`. The depth of this pattern is unbounded, but
@@ -436,19 +434,17 @@ impl<'t, A> Fold<'t, A> for TreeExhaustiveness {
             BranchKind::Repetition(repetition) if Self::is_bounded_branch(repetition.token()) => {
                 term
             },
-            branch @ BranchKind::Repetition(_) => match term.as_variance() {
-                // When folding terms into a repetition, only finalize variant terms and the
-                // multiplicative identity and annihilator (one and zero). This is necessary,
-                // because natural bounds do not express the subset nor relationship of matched
-                // values within the range. Consider `<*/*/>`. This pattern is unbounded w.r.t.
-                // depth, but only matches paths with a depth that is a multiple of two and so is
-                // nonexhaustive. However, the similar pattern `<*/>` is exhaustive and matches any
-                // sub-tree of a match.
-                Invariant(&Depth::ZERO) | Invariant(&Depth::ONE) | Variant(_) => {
-                    self::finalize::<Depth>(branch, term)
-                },
-                _ => term,
+            // When folding terms into a repetition, only finalize terms in which every branch is
+            // the multiplicative identity or annihilator (one or zero) or has no upper bound and a
+            // lower bound of at most one. This is necessary, because natural bounds do not express
+            // the subset nor relationship of matched values within the range. Consider `<*/*/>`.
+            // This pattern is unbounded w.r.t. depth, but only matches paths with a depth that is
+            // a multiple of two and so is nonexhaustive. However, the similar pattern `<*/>` is
+            // exhaustive and matches any sub-tree of a match.
+            branch @ BranchKind::Repetition(_) if term.is_contiguous() => {
+                self::finalize::<Depth>(branch, term)
             },
+            BranchKind::Repetition(_) => term,
             branch => self::finalize::<Depth>(branch, term),
         }
     }
